@@ -131,18 +131,24 @@ def identity_bits(eng: Engine, ctx: Ctx, rid: str) -> int:
 
 # ============================================================================ decoder naming rule (C03-D4; used by C18, C19)
 def decoder_suffix_format(eng: Engine):
-    """(separator, format spec) of the per-level index suffix the single-field routine appends,
-    extracted from the term `name + f"<sep>{i:<spec>}"` built inside its loop over the index stack."""
+    """(separator, format spec) of the per-level index suffix the single-field routine appends: the f-string
+    `"<sep>{i:<spec>}"` over the elements of the index stack, found in the loop (or comprehension) that builds the stored name."""
     f = eng.repo.func(eng.single_field_routine)
     se = eng.symeval(f.qualname)
+    idxp = ("param", f.params[3]) if len(f.params) > 3 else None
     found = set()
+    pools = []
     for lid, info in se.loop_info.items():
-        for var, term in (info.get("body_end") or {}).items():
-            for st in subterms(term):
-                if isinstance(st, tuple) and st and st[0] == "fstr" and len(st[1]) == 2 and is_const(st[1][0]) and st[1][1][0] == "fmt":
-                    fm = st[1][1]
-                    if fm[1][0] == "elem" and isinstance(fm[2], str):
-                        found.add((st[1][0][1], fm[2]))
+        pools.extend((info.get("body_end") or {}).values())
+    pools.extend(e.term for e in se.effects)
+    if se.final is not None:
+        pools.extend(se.final.env.values())
+    for term in pools:
+        for st in subterms(term):
+            if isinstance(st, tuple) and st and st[0] == "fstr" and len(st[1]) == 2 and is_const(st[1][0]) and st[1][1][0] == "fmt":
+                fm = st[1][1]
+                if fm[1][0] == "elem" and fm[1][1] == idxp and isinstance(fm[2], str):
+                    found.add((st[1][0][1], fm[2]))
     if len(found) != 1:
         raise AnalysisError(f"decoder index-suffix format not uniquely determined: {sorted(found)}")
     return next(iter(found))
